@@ -12,7 +12,7 @@ from glue.core.util import split_component_view
 from glue.core.registry import Registry
 from glue.core.exceptions import IncompatibleAttribute
 from glue.core.message import SubsetDeleteMessage, SubsetUpdateMessage
-from glue.core.decorators import memoize
+from glue.core.decorators import memoize, clear_all_caches
 from glue.core.visual import VisualAttributes
 from glue.config import settings
 from glue.utils import (categorical_ndarray, combine_slices, floodfill, iterate_chunks,
@@ -431,6 +431,16 @@ class SubsetState(object):
     def __init__(self):
         pass
 
+    def __setattr__(self, name, value):
+        # Results of to_mask are cached using the subset state object as
+        # (part of) the key, so changing one of the parameters of an existing
+        # state in-place needs to invalidate these caches. Setting an attribute
+        # for the first time (in __init__) doesn't.
+        modified = name in self.__dict__
+        object.__setattr__(self, name, value)
+        if modified:
+            clear_all_caches()
+
     @property
     def attributes(self):
         """
@@ -552,6 +562,8 @@ class RoiSubsetStateNd(SubsetState):
 
     def move_to(self, *args):
         self._roi.move_to(*args)
+        # The region is modified in-place, so cached masks are out of date
+        clear_all_caches()
 
     @contract(data='isinstance(Data)', view='array_view')
     def to_mask(self, data, view=None):
